@@ -88,6 +88,10 @@ class Engine:
         for name in sorted(self.src.functions_table):
             self.static_id(self.functions_entry_static(name))
 
+    def shapes_fields(self):
+        from .shapes import FIELDS
+        return FIELDS
+
     # -- statics ----------------------------------------------------------------
     def static_id(self, st):
         if st not in self.static_ids:
